@@ -136,22 +136,23 @@ pub fn spaces(tier: &str) -> Vec<Box<dyn Space>> {
     let kinds: Vec<(usize, usize)> = vec![(0, 2730), (7, 2340), (9, 1190), (3, 1630), (1, 540), (100, 1400)];
     v.push(space(
         "maximal-chains: all-in-one vs one-per-call",
-        kinds.len() as u64 * 3,
+        kinds.len() as u64 * 4,
         move |i| {
-            let (k, _) = kinds[(i / 3) as usize];
+            let (k, _) = kinds[(i / 4) as usize];
             // as many packets as fit one datagram; then 1/7, 1/2 and all of them
             let mut all: Vec<Vec<u8>> = vec![];
             let mut total = 0usize;
             for pos in 0.. {
                 let pk = if k == 100 { menu::packet([0, 7, 2, 8, 3, 4, 9, 6][pos % 8], pos) } else { menu::packet(k, pos) };
-                if total + pk.len() > 65535 {
+                // the fourth size of every kind goes beyond a datagram (about 150 KB in one call)
+                if total + pk.len() > if i % 4 == 3 { 150_000 } else { 65535 } {
                     break;
                 }
                 total += pk.len();
                 all.push(pk);
             }
             let max = all.len();
-            let n = [max / 7, max / 2, max][(i % 3) as usize];
+            let n = [max / 7, max / 2, max, max][(i % 4) as usize];
             let packets: Vec<Vec<u8>> = all[..n].to_vec();
             let total: usize = packets.iter().map(|p| p.len()).sum();
             let mut p1 = NetflowParser::default();
@@ -181,7 +182,7 @@ pub fn run(tier: &str) -> i32 {
         prop: "C11".into(),
         tier: tier.into(),
         level: "model_checking",
-        rule: "every sequence of 1..=5 packets (thorough: also every sequence of 6 over a 10-packet sub-menu) over the 17-packet self-delimiting menu (V5x0, V5x2, V7x1, V9-T, V9-D, V9-TD, V9-OT+OD, IPFIX-T, IPFIX-D, IPFIX-TD, IPFIX-T', IPFIX-D(absent id), IPFIX header only, V9 count 0, V7x0, V9 and IPFIX data-then-redefinition), each under ALL 2^(n-1) partitions into consecutive calls on a fresh parser; sequences whose one-per-call run contains an error element are outside the domain (tagged, not judged) unless the failing packet is the last one of the sequence; plus every sequence of <= 4 packets over an 8-packet large-cache menu (1 100 V9 templates in one flowset, 1 100 IPFIX template sets, 1 100 V9 options templates, data for the first and last id, V5) under all partitions, and maximal chains up to the datagram limit (all-in-one vs one-per-call). Oracle: canonical dump of the concatenated results and final cache snapshot identical to one-packet-per-call delivery. A sequence is distinct by the hash of its one-per-call result".into(),
+        rule: "every sequence of 1..=5 packets (thorough: also every sequence of 6 over a 10-packet sub-menu) over the 17-packet self-delimiting menu (V5x0, V5x2, V7x1, V9-T, V9-D, V9-TD, V9-OT+OD, IPFIX-T, IPFIX-D, IPFIX-TD, IPFIX-T', IPFIX-D(absent id), IPFIX header only, V9 count 0, V7x0, V9 and IPFIX data-then-redefinition), each under ALL 2^(n-1) partitions into consecutive calls on a fresh parser; sequences whose one-per-call run contains an error element are outside the domain (tagged, not judged) unless the failing packet is the last one of the sequence; plus every sequence of <= 4 packets over an 8-packet large-cache menu (1 100 V9 templates in one flowset, 1 100 IPFIX template sets, 1 100 V9 options templates, data for the first and last id, V5) under all partitions, and maximal chains up to the datagram limit and of about 150 KB (all-in-one vs one-per-call). Oracle: canonical dump of the concatenated results and final cache snapshot identical to one-packet-per-call delivery. A sequence is distinct by the hash of its one-per-call result".into(),
         bounds: json!({"sequence_len": if thorough {"5 over 17 packets + 6 over 10 packets"} else {"5 over 17 packets"}, "menu": menu::NAMES[..menu::SELF_DELIMITING].to_vec(), "partitions": "all"}),
         assumptions: vec![],
         trusted_base: vec!["c11::judge".into()],
